@@ -500,6 +500,8 @@ def run_reuse(ctx, n):
 
 
 def replay(ctx, case):
+    if "scales" in case:
+        return check_valid_dataset(ctx, case)
     if "sizes" in case:
         return check_reuse(ctx, case)
     if "nlabels" in case:
@@ -566,6 +568,67 @@ def run_atheris(ctx, n):
                              atheris_deep, seconds=n)
 
 
+# ---- valid files of a multi-scale dataset, read through the I/O layer ---------
+def check_valid_dataset(ctx, case):
+    """Chunk files written by the independent encoder with the block size of
+    their scale (the block size is a per-scale field) are read through
+    PrecomputedIO.read_chunk: valid data is never rejected or mis-decoded."""
+    import os
+
+    from vlib import datasets as ds
+    d = ctx.tmpdir("validds")
+    try:
+        scales = [ds.make_scale(
+            "s%d" % i, sc["size"], sc["chunk"], "compressed_segmentation",
+            block=sc["block"]) for i, sc in enumerate(case["scales"])]
+        info = ds.make_info(case["dtype"], case["channels"], scales,
+                            "segmentation")
+        pio = ds.new_dataset(info, {"type": "file", "flat": case["flat"],
+                                    "gzip": False}, os.path.join(d, "ds"))
+        truth = []
+        for i, (sc, p) in enumerate(zip(scales, case["scales"])):
+            vol = c02_cseg.build_chunk({
+                "dtype": case["dtype"], "channels": case["channels"],
+                "size": p["size"], "block": p["block"],
+                "pal": case["pal"], "values": case["values"],
+                "share": True, "seed": case["seed"] + i})
+            for cc in ds.chunk_coords_list(sc["size"],
+                                           sc["chunk_sizes"][0]):
+                x0, x1, y0, y1, z0, z1 = cc
+                w = np.ascontiguousarray(vol[:, z0:z1, y0:y1, x0:x1])
+                pio.accessor.store_chunk(cseg_spec.encode(
+                    w, p["block"], order=["tv", "vt"][case["seed"] % 2],
+                    global_table=case["seed"] % 3 == 0), sc["key"], cc)
+                truth.append((sc["key"], cc, w, i))
+        pio2 = ds.open_dataset(os.path.join(d, "ds"))
+        for key, cc, w, i in truth:
+            try:
+                got = pio2.read_chunk(key, cc)
+            except Exception as exc:
+                ctx.fail("valid compressed_segmentation chunk %s of scale "
+                         "%d (block size %s) rejected by read_chunk: %s "
+                         "%s (scales %s)" % (
+                             cc, i, case["scales"][i]["block"],
+                             type(exc).__name__, exc, case["scales"]))
+            if got.shape != w.shape or not np.array_equal(got, w):
+                ctx.fail("valid compressed_segmentation chunk %s of scale "
+                         "%d (block size %s) decoded to other labels by "
+                         "read_chunk (scales %s)" % (
+                             cc, i, case["scales"][i]["block"],
+                             case["scales"]))
+    finally:
+        ctx.rmtree(d)
+
+
+def run_valid_dataset(ctx, n):
+    def check(ctx, case):
+        check_valid_dataset(ctx, case)
+        ctx.record(case, len({tuple(p["block"])
+                              for p in case["scales"]}) >= 2,
+                   ["scales%d" % len(case["scales"])])
+    ctx.run_hypothesis(c02_cseg.dataset_cases(), check, n)
+
+
 SUBS = [
     Sub("raw", run_kind("raw"), replay, quick=2500, thorough=200000),
     Sub("cseg", run_kind("cseg"), replay, quick=6000, thorough=600000),
@@ -573,6 +636,7 @@ SUBS = [
     Sub("valid", run_valid, replay, quick=1500, thorough=80000),
     Sub("valid_large", run_valid_large, replay, quick=24, thorough=800,
         shards=6),
+    Sub("valid_dataset", run_valid_dataset, replay, quick=150, thorough=6000),
     Sub("codec_reuse", run_reuse, replay, quick=800, thorough=40000),
     Sub("atheris", run_atheris, replay, quick=30000, thorough=120,
         serial=True),
